@@ -2,16 +2,19 @@
 
 Implementation driven (real code from $VERIF_REPO/src):
   highdicom.sr.value_types.ContentSequence: __init__, from_sequence (+ _check_dataset and the
-  from_dataset chain of TEXT / CONTAINER datasets, copy=True/False), append, extend, +=, insert,
+  from_dataset chain of datasets of ALL fifteen value types, incl. the default name given to COMPOSITE / IMAGE /
+  SCOORD / SCOORD3D / TCOORD / WAVEFORM datasets without ConceptNameCodeSequence; copy=True/False), append, extend, +=, insert,
   seq.extend(seq), seq += seq, __setitem__ (int / slice), __delitem__ (int / slice), the inherited pop, remove, reverse, clear,
-  count, find, index, `in`, get_nodes, is_root / is_sr, with real ContainerContentItem /
-  TextContentItem objects and plain pydicom Datasets.
+  count, find, index, `in`, get_nodes, is_root / is_sr, reading by seq[i], seq[a:b:c] and reversed(seq), with real
+  ContainerContentItem / TextContentItem objects (and, in kind fromseq, items of the thirteen other value types)
+  and plain pydicom Datasets.
 Model: coq/theories/C14_Model.v; theorems: C14_Props.v.
 
 A case is an operation history.  After construction and after every operation the
 runner records: list contents, find() for each name of the case - asked once with a
 highdicom CodedConcept and once with an equal pydicom Code tuple -, index()/`in` for a
-set of probe items, get_nodes(), the two flags, and the error class of the operation.
+set of probe items, get_nodes(), the two flags, fixed read probes (seq[i] for 3 indices, seq[a:b:c] for 4 slices
+incl. step 0, reversed(seq)), and the error class of the operation.
 The oracle is a plain Python list driven with the interpreter's own list
 operations plus a recomputed filter; it never looks at the model.
 
@@ -51,8 +54,9 @@ ORACLE_PREMISES = [
 ]
 MODELLED = ('sr/value_types.py ContentSequence.__init__, append, extend, __iadd__, insert, __setitem__, '
             '__delitem__, index, __contains__, find, get_nodes, is_root, is_sr, from_sequence, _check_dataset, '
-            '_assert_value_type / ContentItem._from_dataset_base (TEXT, CONTAINER), and the inherited '
-            'MutableSequence methods pop, remove, reverse, clear, count; families of sequences: ContentSequence(seq), '
+            '_assert_value_type / _get_content_item_class / ContentItem._from_dataset_base (all 15 value types, default '
+            'name of the optional-name types), ConstrainedList.__getitem__ (int / slice), Sequence.__reversed__, and the '
+            'inherited MutableSequence methods pop, remove, reverse, clear, count; families of sequences: ContentSequence(seq), '
             'ContentItem.__setattr__("ContentSequence", seq), copy.deepcopy(seq), find / get_nodes results used as '
             'sequences of their own (pydicom Sequence = Python list, '
             're-modelled; ContentItem abstracted to is-item/name/relationship/container/node/payload, a dataset '
@@ -60,8 +64,11 @@ MODELLED = ('sr/value_types.py ContentSequence.__init__, append, extend, __iadd_
 STRATA = ['hist_sr', 'hist_root', 'hist_nonsr', 'init_err', 'init_via', 'fromseq', 'eq', 'slice', 'multi']
 RULE = ('operations: append, extend, +=, seq.extend(seq), seq += seq (under a 5 s alarm), insert, setitem/delitem (int, slice), '
         'pop, remove, reverse, clear; construction by '
-        '__init__ (list / another ContentSequence) and by from_sequence (plain Datasets, copy or in place, 7 kinds of '
-        'malformed dataset, wrong relationship state); '
+        '__init__ (list / another ContentSequence) and by from_sequence (plain Datasets of all 15 value types - 3/4 of '
+        'the fromseq cases are judged by the model over all value types, ~55 % of their non-container datasets get '
+        'one of the 13 other types, ~45 % of the optional-name ones come without a name -, copy or in place, 7 kinds '
+        'of malformed dataset incl. either required attribute of SCOORD / SCOORD3D missing, wrong relationship state); '
+        'after every step also seq[-1], seq[2], seq[-9], seq[-1:0:-2], seq[1::3], seq[-2:7], seq[0::0], reversed(seq); '
         'random operation histories (length <= 12, plus systematic 2-operation histories) over items with 3 names '
         'x 2 spellings x 3 relationship states x container/text x node/leaf x small payloads (so equal items '
         'recur) on root / non-root SR / non-SR sequences; in ~30 % of the cases the names also carry a coding scheme '
@@ -74,8 +81,9 @@ RULE = ('operations: append, extend, +=, seq.extend(seq), seq += seq (under a 5 
         'objects, wrong relationship state, non-container at root, root&non-SR flags. non-trivial = at least 2 '
         'operations accepted and a final list with >= 2 items, or a refused operation; distinct by case hash')
 EXHAUSTIVE = {'quick': False, 'thorough': False}
-NOT_EXECUTED = ['from_sequence with value types other than TEXT / CONTAINER (their from_dataset differs only in the '
-                'required attribute checked by _assert_value_type)']
+NOT_EXECUTED = ['copy.copy(seq) (shares list and index with the original: one state, two handles)',
+                'malformed VALUES of the required attributes of the 13 other value types (e.g. a NUM dataset whose '
+                'MeasuredValueSequence lacks MeasurementUnitsCodeSequence): only presence / absence is driven']
 HANG_S = 5           # seq.extend(seq) / seq += seq are run under signal.alarm: a hang is reported, not suffered
 
 JUNK = 'junk'        # not a Dataset at all (the int 5)
@@ -96,12 +104,38 @@ def nk(it):
     return it['n'] + 3 * it.get('ver', 0) + 9 * it.get('long', 0)
 
 
+# value types other than TEXT / CONTAINER (item spec key 'vt'): model code (C14_Model.v ds_check_x) and the
+# attributes _assert_value_type requires
+VT_CODE = {'TEXT': 1, 'CONTAINER': 2, 'CODE': 3, 'NUM': 4, 'PNAME': 5, 'DATE': 6, 'TIME': 7, 'DATETIME': 8, 'UIDREF': 9,
+           'COMPOSITE': 10, 'IMAGE': 11, 'SCOORD': 12, 'SCOORD3D': 13, 'TCOORD': 14, 'WAVEFORM': 15}
+VT_NAME = {v: k for k, v in VT_CODE.items()}
+VT_REQUIRED = {'CODE': ['ConceptCodeSequence'], 'NUM': ['MeasuredValueSequence'], 'PNAME': ['PersonName'],
+               'DATE': ['Date'], 'TIME': ['Time'], 'DATETIME': ['DateTime'], 'UIDREF': ['UID'],
+               'COMPOSITE': ['ReferencedSOPSequence'], 'IMAGE': ['ReferencedSOPSequence'],
+               'SCOORD': ['GraphicType', 'GraphicData'], 'SCOORD3D': ['GraphicType', 'GraphicData'],
+               'TCOORD': ['TemporalRangeType'], 'WAVEFORM': ['ReferencedSOPSequence'],
+               'TEXT': ['TextValue'], 'CONTAINER': ['ContinuityOfContent']}
+OTHER_VTS = [k for k in VT_CODE if k not in ('TEXT', 'CONTAINER')]
+OPTNAME_VTS = ['COMPOSITE', 'IMAGE', 'SCOORD', 'SCOORD3D', 'TCOORD', 'WAVEFORM']
+DEFAULT_NAME_KEY = 18        # (SCT, 260753009, 'Source'): spec {'n': 0, 'ver': 0, 'long': 2}
+
+
+def vt_of(it):
+    return it.get('vt') or ('CONTAINER' if it['cont'] else 'TEXT')
+
+
+def pay(it):
+    """payload of the model item: the small value, tagged with the value type for types other than TEXT / CONTAINER
+    (items of different value types are different Datasets)"""
+    return it['v'] + (10 * VT_CODE[it['vt']] if it.get('vt') else 0)
+
+
 def tup(it):
     # 'alt' (a different spelling of the code meaning) is deliberately NOT part of the tuple: CodedConcept
     # equality ignores the meaning, so such items are equal Datasets and share a name-index key
     if is_junk(it):
         return JUNK
-    return (nk(it), it['rel'], bool(it['cont']), bool(it['node']), it['v'])
+    return (nk(it), it['rel'], bool(it['cont']), bool(it['node']), pay(it))
 
 
 _REL = {0: None, 1: 'CONTAINS', 2: 'HAS PROPERTIES'}
@@ -118,6 +152,13 @@ def _name(n, alt=0, code=False, ver=0, long=0):
     from highdicom.sr import CodedConcept
     meaning = f'name {n}' + (' alt' if alt else '')
     value = (_LONG if long else '') + str(100 + n)
+    if long == 2:
+        # the default name _from_dataset_base gives to an optional-name dataset that has none
+        value, meaning = '260753009', 'Source'
+        if code:
+            from pydicom.sr.coding import Code
+            return Code(value, 'SCT', meaning)
+        return CodedConcept(value, 'SCT', meaning)
     if code:
         from pydicom.sr.coding import Code
         return Code(value, '99VERIF', meaning, _VER[ver])
@@ -136,7 +177,9 @@ def build(it):
         from pydicom import Dataset
         return Dataset()
     rel = _REL[it['rel']]
-    if it['cont']:
+    if it.get('vt'):
+        x = build_other(it, rel)
+    elif it['cont']:
         x = ContainerContentItem(_name_key(nk(it), it['alt']), is_content_continuous=(it['v'] % 2 == 0),
                                  relationship_type=rel)
     else:
@@ -146,13 +189,89 @@ def build(it):
     return x
 
 
+def build_other(it, rel):
+    """a content item of one of the thirteen other value types, with the small payload v in its value"""
+    import datetime
+    import numpy as np
+    from highdicom import sr
+    from pydicom.sr.coding import Code
+    name, v, vt = _name_key(nk(it), it['alt']), it['v'], it['vt']
+    kw = {'relationship_type': rel}
+    if vt == 'CODE':
+        return sr.CodeContentItem(name, Code(str(v), '99VERIF', f'value {v}'), **kw)
+    if vt == 'NUM':
+        return sr.NumContentItem(name, v, Code('1', 'UCUM', 'no units'), **kw)
+    if vt == 'PNAME':
+        return sr.PnameContentItem(name, f'Doe^J{v}', **kw)
+    if vt == 'DATE':
+        return sr.DateContentItem(name, datetime.date(2000, 1, 1 + v), **kw)
+    if vt == 'TIME':
+        return sr.TimeContentItem(name, datetime.time(1, 2, v), **kw)
+    if vt == 'DATETIME':
+        return sr.DateTimeContentItem(name, datetime.datetime(2000, 1, 1 + v), **kw)
+    if vt == 'UIDREF':
+        return sr.UIDRefContentItem(name, f'1.2.3.{v}', **kw)
+    if vt == 'COMPOSITE':
+        return sr.CompositeContentItem(name, '1.2.840.10008.5.1.4.1.1.88.11', f'1.2.3.{v}', **kw)
+    if vt == 'IMAGE':
+        return sr.ImageContentItem(name, '1.2.840.10008.5.1.4.1.1.2', f'1.2.3.{v}', **kw)
+    if vt == 'SCOORD':
+        return sr.ScoordContentItem(name, 'POINT', np.array([[v + 1.0, 2.0]]), **kw)
+    if vt == 'SCOORD3D':
+        return sr.Scoord3DContentItem(name, 'POINT', np.array([[v + 1.0, 2.0, 3.0]]), '1.2.3.4', **kw)
+    if vt == 'TCOORD':
+        return sr.TcoordContentItem(name, 'POINT', referenced_sample_positions=[v + 1], **kw)
+    if vt == 'WAVEFORM':
+        return sr.WaveformContentItem(name, '1.2.840.10008.5.1.4.1.1.9.1.1', f'1.2.3.{v}', **kw)
+    raise AssertionError(vt)
+
+
+def render_other(x):
+    """value type code and payload v of an item of one of the other value types (v = 9: the value cannot be read)"""
+    try:
+        return _render_other(x)
+    except (AttributeError, IndexError, ValueError, TypeError):
+        return 9 + 10 * VT_CODE.get(str(getattr(x, 'ValueType', '')), 0)
+
+
+def _render_other(x):
+    vt = str(x.ValueType)
+    last = lambda u: int(str(u).split('.')[-1])       # noqa: E731
+    if vt == 'CODE':
+        v = int(x.ConceptCodeSequence[0].CodeValue)
+    elif vt == 'NUM':
+        v = int(x.MeasuredValueSequence[0].NumericValue)
+    elif vt == 'PNAME':
+        v = int(str(x.PersonName)[-1])
+    elif vt == 'DATE':
+        v = int(str(x.Date)[-2:]) - 1
+    elif vt == 'TIME':
+        v = int(str(x.Time)[4:6])
+    elif vt == 'DATETIME':
+        v = int(str(x.DateTime)[6:8]) - 1
+    elif vt == 'UIDREF':
+        v = last(x.UID)
+    elif vt in ('COMPOSITE', 'IMAGE', 'WAVEFORM'):
+        v = last(x.ReferencedSOPSequence[0].ReferencedSOPInstanceUID)
+    elif vt in ('SCOORD', 'SCOORD3D'):
+        v = int(round(float(x.GraphicData[0]))) - 1
+    elif vt == 'TCOORD':
+        sp = x.ReferencedSamplePositions
+        v = int(sp if isinstance(sp, int) else sp[0]) - 1
+    else:
+        raise AssertionError(vt)
+    return v + 10 * VT_CODE[vt]
+
+
 def render(x):
     from highdicom.sr import ContainerContentItem
     from highdicom.sr.value_types import ContentItem
     if not isinstance(x, ContentItem):
         return [-1, 0, False, False, -1]       # something that is no content item sits in the sequence
     nm = x.ConceptNameCodeSequence[0]
-    if 'LongCodeValue' in nm:
+    if nm.CodingSchemeDesignator == 'SCT':
+        n = DEFAULT_NAME_KEY - 3 * _VER_INV[getattr(nm, 'CodingSchemeVersion', None)]
+    elif 'LongCodeValue' in nm:
         n = int(str(nm.LongCodeValue)[len(_LONG):]) - 100 + 9
     else:
         n = int(nm.CodeValue) - 100
@@ -162,6 +281,8 @@ def render(x):
     node = hasattr(x, 'ContentSequence')
     if cont:
         v = 0 if x.ContinuityOfContent == 'CONTINUOUS' else 1
+    elif str(x.ValueType) != 'TEXT':
+        v = render_other(x)
     else:
         v = int(str(x.TextValue)[1:])
     return [n, rel, cont, node, v]
@@ -207,6 +328,8 @@ def untup(t):
     it = {'n': t[0] % 3, 'alt': 0, 'rel': t[1], 'cont': t[2], 'node': t[3], 'v': t[4]}
     if t[0] >= 3:
         it['ver'], it['long'] = (t[0] // 3) % 3, t[0] // 9
+    if t[4] >= 10:
+        it['vt'], it['v'] = VT_NAME[t[4] // 10], t[4] % 10
     return it
 
 
@@ -408,13 +531,15 @@ def probes(rng, case):
                 keys.append(nk(it))
         names = keys[:4]
         # the same code in another version / without version / in the other form must NOT find these items
-        for k in list(names[:2]):
+        for k in [k for k in names[:2] if k < DEFAULT_NAME_KEY]:
             for k2 in (k % 3 + 9 * (k // 9), k % 3 + 3 * rng.choice([1, 2]) + 9 * (k // 9), k % 9 + 9 * (1 - k // 9)):
                 if k2 not in names and len(names) < 7:
                     names.append(k2)
         case['names'] = sorted(names)
     else:
         case['names'] = [0, 1, 2]
+    if any(nk(it) == DEFAULT_NAME_KEY for it in seen) and DEFAULT_NAME_KEY not in case['names']:
+        case['names'] = case['names'] + [DEFAULT_NAME_KEY]
     return qs
 
 
@@ -448,6 +573,14 @@ def gen_fromseq(rng, i):
     its = gen_init(rng, root and sr, sr, valid=True, vm=vm)
     if not its or rng.random() < 0.3:
         its = its + gen_init(rng, root and sr, sr, valid=True, vm=vm)
+    xmode = i % 4 != 3          # judged by the model over ALL value types (from_sequence_x); else the TEXT / CONTAINER one
+    if xmode:
+        for it in its:
+            if not it['cont'] and rng.random() < 0.55:
+                it['vt'], it['v'] = rng.choice(OTHER_VTS), rng.choice([0, 0, 1, 2])
+                if it['vt'] in OPTNAME_VTS and rng.random() < 0.45:
+                    # the dataset comes WITHOUT a concept name: the item gets the default name
+                    it.update(n=0, alt=0, ver=0, long=2, dropname=True)
     ds = [{'it': it, 'defect': None} for it in its]
     if not valid:
         # one or two datasets are malformed, or carry the wrong relationship state for this sequence
@@ -457,15 +590,20 @@ def gen_fromseq(rng, i):
             d = rng.choice(ds)
             if rng.random() < 0.6:
                 d['defect'] = rng.choice(DEFECTS)
+                d['which'] = rng.randrange(2)       # which of the required attributes 'noval' removes
                 if d['defect'].startswith('kid'):
                     d['it'] = dict(d['it'], node=True)
+                if d['defect'] == 'noname' and d['it'].get('vt') in OPTNAME_VTS:
+                    # not a defect for these value types: the default name
+                    d['defect'] = None
+                    d['it'] = dict(d['it'], n=0, alt=0, ver=0, long=2, dropname=True)
             else:
                 d['it'] = dict(d['it'], rel=(0 if d['it']['rel'] else rng.choice([1, 2])))
-                if rng.random() < 0.3:
+                if rng.random() < 0.3 and not d['it'].get('vt'):
                     d['it']['cont'] = not d['it']['cont']
                     d['it']['v'] %= 2
     case = {'kind': 'fromseq', 'root': root, 'sr': sr, 'vm': vm, 'ds': ds, 'init': [d['it'] for d in ds],
-            'copy': rng.random() < 0.6, 'ops': [], 'reuse': False}
+            'copy': rng.random() < 0.6, 'ops': [], 'reuse': False, 'x': xmode}
     add_ops(rng, case, rng.choice([1, 2, 3, 5]))
     case['qs'] = probes(rng, case)
     return case
@@ -659,6 +797,15 @@ def find_keys(case):
     return [(n, case.get('find_code', False)) for n in range(3)]     # cases recorded before 'names' existed
 
 
+# fixed read probes (C14_Model.v READ_INTS / READ_SLICES): seq[i], seq[a:b:c] (a plain list), reversed(seq)
+READ_INTS = [-1, 2, -9]
+READ_SLICES = [(-1, 0, -2), (1, None, 3), (-2, 7, None), (0, None, 0)]
+
+
+class NotAList(Exception):
+    pass
+
+
 def _observe(seq, case, mk):
     items = [render(x) for x in seq]
     finds = []
@@ -669,7 +816,16 @@ def _observe(seq, case, mk):
     cont = [catch(lambda q=q: bool(mk(q) in seq)) for q in case['qs']]
     nodes = catch(lambda: [render(x) for x in seq.get_nodes()])
     counts = [catch(lambda q=q: int(seq.count(mk(q)))) for q in case['qs']]
-    return [items, finds, idx, cont, nodes, bool(seq.is_root), bool(seq.is_sr), counts]
+
+    def read_slice(a, b, c):
+        got = seq[slice(a, b, c)]
+        if type(got) is not list:
+            raise NotAList()
+        return [render(x) for x in got]
+    reads = [[catch(lambda i=i: render(seq[i])) for i in READ_INTS],
+             [catch(lambda q=q: read_slice(*q)) for q in READ_SLICES],
+             [render(x) for x in reversed(seq)]]
+    return [items, finds, idx, cont, nodes, bool(seq.is_root), bool(seq.is_sr), counts, reads]
 
 
 def _apply(seq, op, mk):
@@ -808,15 +964,15 @@ def build_ds(d):
     if defect == 'nods':
         return 5
     x = plain(build(d['it']))
+    if d['it'].get('dropname'):
+        del x.ConceptNameCodeSequence
     if defect == 'novt':
         del x.ValueType
     elif defect == 'badvt':
         x.ValueType = 'BOGUS'
     elif defect == 'noval':
-        if d['it']['cont']:
-            del x.ContinuityOfContent
-        else:
-            del x.TextValue
+        req = VT_REQUIRED[vt_of(d['it'])]
+        delattr(x, req[d.get('which', 0) % len(req)])
     elif defect == 'noname':
         del x.ConceptNameCodeSequence
     elif defect == 'kidnorel':
@@ -894,14 +1050,16 @@ def oz(x):
     return 'None' if x is None else f'(Some {zlit(x)})'
 
 
-def cds(d):
+def cds(d, x=False):
+    """x: for from_sequence_x (value type codes 1..15; an unknown value type is 99, not 3)"""
     it, defect = d['it'], d['defect']
     if defect == 'nods':
         return '(DSet false 0 false false 0 0 0 0)'
-    vt = 0 if defect == 'novt' else 3 if defect == 'badvt' else 2 if it['cont'] else 1
+    vt = 0 if defect == 'novt' else (99 if x else 3) if defect == 'badvt' else VT_CODE[vt_of(it)]
     kids = 2 if defect == 'kidnorel' else 3 if defect == 'kidbadvt' else 1 if it['node'] else 0
-    return (f"(DSet true {vt} {_b(defect != 'noval')} {_b(defect != 'noname')} {nk(it)} {it['rel']} "
-            f"{kids} {it['v']})")
+    hasname = defect != 'noname' and not it.get('dropname')
+    return (f"(DSet true {vt} {_b(defect != 'noval')} {_b(hasname)} {nk(it)} {it['rel']} "
+            f"{kids} {pay(it)})")
 
 
 def cop(op):
@@ -975,6 +1133,10 @@ def coq_term(c):
         return (f"(run_multi {_b(c['root'])} {_b(c['sr'])} (FromList {citems(c['init'])}) {names} "
                 f"{citems(c['qs'])} {mops})")
     ops = '[' + '; '.join(cop(o) for o in c['ops']) + ']'
+    if k == 'fromseq' and c.get('x'):
+        dsx = '[' + '; '.join(cds(d, x=True) for d in c['ds']) + ']'
+        return (f"(run_xhistory_x {_b(c['root'])} {_b(c['sr'])} {dsx} {names} "
+                f"{citems(c['qs'])} {ops})")
     if k == 'fromseq':
         ctor = '(FromSeq [' + '; '.join(cds(d) for d in c['ds']) + '])'
     else:
@@ -989,7 +1151,7 @@ def coq_term(c):
 def _check_obs(ref, obs, c, where, root=None, sr=None):
     root = c['root'] if root is None else root
     sr = c['sr'] if sr is None else sr
-    items, finds, idx, cont, nodes, r_root, r_sr, counts = obs
+    items, finds, idx, cont, nodes, r_root, r_sr, counts = obs[:8]
     got = [tuple(x) for x in items]
     if got != ref:
         return f'{where}: list is {got}, plain list gives {ref}'
@@ -1028,6 +1190,19 @@ def _check_obs(ref, obs, c, where, root=None, sr=None):
         return f'{where}: get_nodes raised {nodes.kind}; node items in the list: {want_nodes}'
     if [tuple(x) for x in nodes] != want_nodes:
         return f'{where}: get_nodes = {nodes}, node items in the list: {want_nodes}'
+    if len(obs) > 8:
+        # reading: seq[i], seq[a:b:c], reversed(seq) against the plain list
+        r_int, r_sl, r_rev = obs[8]
+        for i, g in zip(READ_INTS, r_int):
+            want = ref[i] if -len(ref) <= i < len(ref) else Err('IndexError')
+            if (g if isinstance(g, Err) else tuple(g)) != want:
+                return f'{where}: seq[{i}] = {g}, the list has {want}'
+        for (a, b, c), g in zip(READ_SLICES, r_sl):
+            want = Err('ValueError') if c == 0 else ref[slice(a, b, c)]
+            if (g if isinstance(g, Err) else [tuple(x) for x in g]) != want:
+                return f'{where}: seq[{a}:{b}:{c}] = {g}, the list gives {want}'
+        if [tuple(x) for x in r_rev] != ref[::-1]:
+            return f'{where}: reversed(seq) = {r_rev}, the list backwards is {ref[::-1]}'
     return None
 
 
